@@ -243,6 +243,11 @@ func (r *Run) doValueOp(sc *plan.Script, op *plan.Op, rec *plan.Rec) {
 				kv.copy[i] ^= 0xff
 			}
 		}
+		// String() and Byte() of one response may share memory; that is the caller's own data,
+		// so the string copies are refreshed after the caller's in-place modification
+		for i := range r.keptStr {
+			r.keptStr[i][1] = strings.Clone(r.keptStr[i][0])
+		}
 		rec.N = len(r.kept)
 		r.mu.Unlock()
 	case "snap.putbuf":
